@@ -27,7 +27,8 @@ PLAN = {
     "C20": dict(modes={"quick": [("budget", 32, 40)], "thorough": [("budget", 400, 60)]},
                 mc={"quick": [("budget", 4, {"Burst": "1"}), ("budget", 4, {"Burst": "0"})],
                     "thorough": [("budget", 5, {"Burst": "2"}), ("budget", 5, {"Burst": "1"}), ("budget", 5, {"Burst": "0"})]}),
-    "C01": dict(modes={"quick": [("hostile", 48, 500)], "thorough": [("hostile", 400, 2000)]},
+    "C01": dict(modes={"quick": [("hostile", 48, 500), ("hostileslow", 8, 200), ("dispatch", 16, 40), ("tokens", 16, 40)],
+                       "thorough": [("hostile", 400, 2000), ("hostileslow", 16, 400), ("dispatch", 200, 60), ("tokens", 200, 60)]},
                 mc={"quick": [("dispatch", 4, {})], "thorough": [("dispatch", 5, {})]}),
 }
 
